@@ -1208,11 +1208,16 @@ func successFacts(pc, ph *bprover, h *ssa.Function, call *ssa.Call) {
 		return
 	}
 	nres := h.Signature.Results().Len()
-	if nres < 1 || !isErrorType(h.Signature.Results().At(nres-1).Type()) {
+	if nres < 1 {
 		return
 	}
-	errV := extractOf(call, nres-1)
-	if errV == nil {
+	lastT := h.Signature.Results().At(nres - 1).Type()
+	byErr, byOK := isErrorType(lastT), nres >= 2 && isBoolType(lastT)
+	if !byErr && !byOK {
+		return
+	}
+	okV := extractOf(call, nres-1)
+	if okV == nil {
 		return
 	}
 	var succ []*ssa.Return
@@ -1221,15 +1226,20 @@ func successFacts(pc, ph *bprover, h *ssa.Function, call *ssa.Call) {
 		if len(vals) != nres {
 			return
 		}
-		nilLeaf := false
+		may := false
 		for _, lf := range phiLeaves(vals[nres-1]) {
-			if isNilConst(lf.Val) {
-				nilLeaf = true
-			} else if !definitelyNonNilError(lf.Val, nil) {
-				nilLeaf = true // not known: may be nil
+			switch {
+			case byErr && isNilConst(lf.Val):
+				may = true
+			case byErr && !definitelyNonNilError(lf.Val, nil):
+				may = true // not known: may be nil
+			case byOK:
+				if k, isK := lf.Val.(*ssa.Const); !isK || k.Value == nil || k.Value.String() != "false" {
+					may = true
+				}
 			}
 		}
-		if nilLeaf {
+		if may {
 			succ = append(succ, r)
 		}
 	}
@@ -1271,6 +1281,16 @@ func successFacts(pc, ph *bprover, h *ssa.Function, call *ssa.Call) {
 		}
 		return out, true
 	}
+	add := func(e lin, why string) {
+		if pc.succFacts == nil {
+			pc.succFacts = map[ssa.Value][]fact{}
+			pc.succBool = map[ssa.Value]bool{}
+		}
+		pc.succFacts[okV] = append(pc.succFacts[okV], fact{e, "holds when " + fnName(h) + " succeeds: " + why})
+		if byOK {
+			pc.succBool[okV] = true
+		}
+	}
 	for _, f := range ph.factsAt(succ[0].Block()) {
 		if len(f.e.t) == 0 {
 			continue
@@ -1285,12 +1305,45 @@ func successFacts(pc, ph *bprover, h *ssa.Function, call *ssa.Call) {
 				all = false
 			}
 		}
-		if !all {
-			continue
+		if all {
+			add(te, f.why)
 		}
-		if pc.succFacts == nil {
-			pc.succFacts = map[ssa.Value][]fact{}
+	}
+	// … and what they establish about an integer handed back with the verdict: 0 <= result, result <= an
+	// integer parameter, result <= the length of a slice parameter
+	if nres >= 2 && isIntType(h.Signature.Results().At(0).Type()) {
+		res0 := extractOf(call, 0)
+		if res0 == nil {
+			return
 		}
-		pc.succFacts[errV] = append(pc.succFacts[errV], fact{te, "holds when " + fnName(h) + " succeeds: " + f.why})
+		ratom := pc.val(res0, call.Block())
+		provedAll := func(goal func(r *ssa.Return) lin) bool {
+			for _, r := range succ {
+				if !ph.prove(goal(r), ph.factsAt(r.Block()), 0) {
+					return false
+				}
+			}
+			return true
+		}
+		retOf := func(r *ssa.Return) lin { return ph.val(returnValues(r)[0], r.Block()) }
+		if provedAll(retOf) {
+			add(ratom, "result >= 0")
+		}
+		for i, par := range h.Params {
+			if i >= len(call.Call.Args) {
+				break
+			}
+			par, arg := par, call.Call.Args[i]
+			if isIntType(par.Type()) && !isUnsigned(par.Type()) {
+				if provedAll(func(r *ssa.Return) lin { return atomLin(ph.id(par)).sub(retOf(r)) }) {
+					add(pc.val(arg, call.Block()).sub(ratom), "result <= "+par.Name())
+				}
+			}
+			if _, isSl := par.Type().Underlying().(*types.Slice); isSl {
+				if provedAll(func(r *ssa.Return) lin { return ph.lenOf(par, r.Block()).sub(retOf(r)) }) {
+					add(pc.lenOf(arg, call.Block()).sub(ratom), "result <= len("+par.Name()+")")
+				}
+			}
+		}
 	}
 }
